@@ -10,6 +10,8 @@ before the rules run, so that equivalent spellings reach the rules as one.
   K5  `x = A if C else B`, `return A if C else B`  ->  if/else statements
   K6  nested `def f(..): return e` used exactly once, as a value  ->  `lambda ..: e`
   K7  `x in [c1, c2]` / `not in [..]` over constants  ->  tuple display
+  K9  `L = []` directly followed by `for v in X: [if not C: continue]* [if C2:] L.append(E)`  ->  `L = [E for v in X if C and C2]`
+      (v unused outside the loop, L not read by X / C / E)
   K8  `not (a or b)` / `not (a and b)` in an if/while test -> De Morgan form with `not` on the atoms; `not a not in b` etc. folded
 
 None of these changes what the code computes; line/column of the rewritten
@@ -136,6 +138,90 @@ def _canon_block(body: List[ast.stmt], in_function: bool) -> List[ast.stmt]:
     return out
 
 
+def _append_loop(init: ast.stmt, loop: ast.stmt, fn_names_outside) -> Optional[ast.stmt]:
+    """K9: returns the comprehension assignment replacing (init, loop), or None"""
+    if not (isinstance(init, ast.Assign) and len(init.targets) == 1 and isinstance(init.targets[0], ast.Name)):
+        return None
+    v = init.value
+    if not ((isinstance(v, ast.List) and not v.elts) or (isinstance(v, ast.Call) and isinstance(v.func, ast.Name) and v.func.id == "list" and not v.args and not v.keywords)):
+        return None
+    L = init.targets[0].id
+    if not (isinstance(loop, ast.For) and not loop.orelse and isinstance(loop.target, (ast.Name, ast.Tuple))):
+        return None
+    conds: List[ast.expr] = []
+    body = [x for x in loop.body if not _is_docstring(x)]
+    while len(body) > 1 and isinstance(body[0], ast.If) and not body[0].orelse and len(body[0].body) == 1 and isinstance(body[0].body[0], ast.Continue):
+        conds.append(_demorgan(ast.copy_location(ast.UnaryOp(op=ast.Not(), operand=body[0].test), body[0].test)))
+        body = body[1:]
+    if len(body) == 1 and isinstance(body[0], ast.If) and not body[0].orelse and len(body[0].body) == 1:
+        conds.append(body[0].test)
+        body = body[0].body
+    if not (len(body) == 1 and isinstance(body[0], ast.Expr) and isinstance(body[0].value, ast.Call) and isinstance(body[0].value.func, ast.Attribute)
+            and body[0].value.func.attr == "append" and isinstance(body[0].value.func.value, ast.Name) and body[0].value.func.value.id == L
+            and len(body[0].value.args) == 1 and not body[0].value.keywords):
+        return None
+    elt = body[0].value.args[0]
+    reads = set()
+    for e in [elt, loop.iter] + conds:
+        reads |= {n.id for n in ast.walk(e) if isinstance(n, ast.Name)}
+    if L in reads:
+        return None
+    if any(isinstance(n, (ast.NamedExpr, ast.Yield, ast.YieldFrom, ast.Await)) for e in [elt, loop.iter] + conds for n in ast.walk(e)):
+        return None
+    tnames = {n.id for n in ast.walk(loop.target) if isinstance(n, ast.Name)}
+    if tnames & fn_names_outside:
+        return None
+    flat: List[ast.expr] = []
+    for c in conds:
+        if isinstance(c, ast.BoolOp) and isinstance(c.op, ast.And):
+            flat.extend(c.values)
+        else:
+            flat.append(c)
+    comp = ast.ListComp(elt=elt, generators=[ast.comprehension(target=loop.target, iter=loop.iter, ifs=flat, is_async=0)])
+    ast.copy_location(comp, loop)
+    new = ast.Assign(targets=[init.targets[0]], value=comp, lineno=init.lineno)
+    return ast.copy_location(new, init)
+
+
+def _append_loops(fn: ast.AST) -> None:
+    def names_outside(loop: ast.stmt):
+        inside = {id(n) for n in ast.walk(loop)}
+        # names bound by a comprehension live in the comprehension's own scope
+        scoped = set()
+        for c in ast.walk(fn):
+            if isinstance(c, (ast.ListComp, ast.SetComp, ast.DictComp, ast.GeneratorExp)):
+                bound = {n.id for g in c.generators for n in ast.walk(g.target) if isinstance(n, ast.Name)}
+                for n in ast.walk(c):
+                    if isinstance(n, ast.Name) and n.id in bound:
+                        scoped.add(id(n))
+        return {n.id for n in ast.walk(fn) if isinstance(n, ast.Name) and id(n) not in inside and id(n) not in scoped} | {a.arg for a in fn.args.args + fn.args.kwonlyargs}
+
+    def visit(body: List[ast.stmt]) -> List[ast.stmt]:
+        out: List[ast.stmt] = []
+        i = 0
+        while i < len(body):
+            s = body[i]
+            if i + 1 < len(body) and isinstance(body[i + 1], ast.For):
+                new = _append_loop(s, body[i + 1], names_outside(body[i + 1]))
+                if new is not None:
+                    out.append(new)
+                    i += 2
+                    continue
+            if not isinstance(s, (ast.FunctionDef, ast.AsyncFunctionDef, ast.ClassDef)):
+                for fld in ("body", "orelse", "finalbody"):
+                    sub = getattr(s, fld, None)
+                    if isinstance(sub, list) and sub and isinstance(sub[0], ast.stmt):
+                        setattr(s, fld, visit(sub))
+                if isinstance(s, ast.Try):
+                    for h in s.handlers:
+                        h.body = visit(h.body)
+            out.append(s)
+            i += 1
+        return out
+
+    fn.body = visit(fn.body)
+
+
 def _lambda_defs(fn: ast.AST) -> None:
     """K6 inside one function body (and nested blocks at the same function level)"""
     body = fn.body
@@ -184,4 +270,5 @@ def canonicalise(tree: ast.Module) -> None:
     for n in list(ast.walk(tree)):
         if isinstance(n, (ast.FunctionDef, ast.AsyncFunctionDef)):
             _lambda_defs(n)
+            _append_loops(n)
     ast.fix_missing_locations(tree)
